@@ -41,6 +41,8 @@ inductive TStep (s : Shared) (t : Thread) : Shared → Thread → Prop
   | swap (op : COp) (rest : List Instr) (hc : t.cur = some op) (hcode : t.code = .swapClosed :: rest) :
       TStep s t (({ s with closed := true } : Shared).log (.lin t.tid t.idx .close .ok))
         { t with code := rest, res := some .ok }
+  | load (op : COp) (rest : List Instr) (hc : t.cur = some op) (hcode : t.code = .load :: rest) :
+      TStep s t s { t with code := rest }
 
 theorem step_tstep {s s' : Shared} {t t' : Thread} (h : (s', t') ∈ step s t) : TStep s t s' t' := by
   unfold step at h
@@ -104,6 +106,10 @@ theorem step_tstep {s s' : Shared} {t t' : Thread} (h : (s', t') ∈ step s t) :
       simp only [List.mem_singleton, Prod.mk.injEq] at h
       obtain ⟨rfl, rfl⟩ := h
       exact TStep.swap op rest hc hcode
+    · rename_i rest hcode
+      simp only [List.mem_singleton, Prod.mk.injEq] at h
+      obtain ⟨rfl, rfl⟩ := h
+      exact TStep.load op rest hc hcode
 
 /-- When a goroutine cannot move it is finished or waits for a lock. -/
 theorem stuck_cases {s : Shared} {t : Thread} (h : step s t = []) :
@@ -156,6 +162,7 @@ def wfc : List Instr → List (LockId × Bool) → Bool
       (if a.isWrite then held.contains (.map, true) else (held.contains (.map, true) || held.contains (.map, false))))
       && wfc rest held
   | .swapClosed :: rest, held => wfc rest held
+  | .load :: rest, held => held.isEmpty && wfc rest held
 
 theorem isWrite_writeOp (r : Bytes) (w : Write) : (writeOp r w).isWrite = true := by
   obtain ⟨k, o⟩ := w
@@ -180,7 +187,15 @@ theorem wf_compile (op : COp) : wfc (compile op) [] = true := by
     apply wf_commitWrites
     · simp [rank]
     · simp [wfc]
-  | _ => simp [compile, readCode, writeCode, iterCode, flagCode, batchCode, wfc, rank, DOp.isWrite, DOp.touchesMap]
+  | fcommit b v r ws =>
+    simp only [compile, wfc, List.isEmpty_nil, List.all_nil, Bool.true_and]
+    have h1 : ([(LockId.batch b, true)] : List (LockId × Bool)).all (fun h => rank h.1 < rank (.view v)) = true := by
+      simp [rank]
+    rw [h1, Bool.true_and]
+    apply wf_commitWrites
+    · simp [rank]
+    · simp [wfc]
+  | _ => simp [compile, readCode, writeCode, fwriteCode, iterCode, flagCode, batchCode, wfc, rank, DOp.isWrite, DOp.touchesMap]
 
 /-! ## where `check` and `swapClosed` occur -/
 
@@ -201,18 +216,24 @@ theorem check_only_first (op : COp) (rest : List Instr) (h : compile op = .check
     simp only [compile, List.cons.injEq, true_and] at h
     subst h
     simp [check_not_mem_commitWrites]
+  | fcommit b v r ws =>
+    simp only [compile, List.cons.injEq, true_and] at h
+    subst h
+    simp [check_not_mem_commitWrites]
   | close => simp [compile] at h
   | batchOp b => simp [compile, batchCode] at h
+  | callback => simp [compile] at h
   | _ =>
-    simp only [compile, readCode, writeCode, iterCode, flagCode, List.cons.injEq, true_and] at h
+    simp only [compile, readCode, writeCode, fwriteCode, iterCode, flagCode, List.cons.injEq, true_and] at h
     subst h; simp
 
 /-- Only `Close` swaps the flag, and that is all it does. -/
 theorem swap_only_close (op : COp) (h : Instr.swapClosed ∈ compile op) : op = .close := by
   cases op with
   | commit b v r ws => simp [compile, swap_not_mem_commitWrites] at h
+  | fcommit b v r ws => simp [compile, swap_not_mem_commitWrites] at h
   | close => rfl
-  | _ => simp [compile, readCode, writeCode, iterCode, flagCode, batchCode] at h
+  | _ => simp [compile, readCode, writeCode, fwriteCode, iterCode, flagCode, batchCode] at h
 
 /-! ## thread-local invariant -/
 
@@ -249,12 +270,17 @@ theorem fresh_tail {t : Thread} (h : TInv t) (i : Instr) (rest : List Instr) (hc
       have : i = .check := by simp [compile] at hcomp; exact hcomp.1
       subst this
       exact check_only_first _ _ hcomp.symm hm
+    | fcommit b v r ws =>
+      have : i = .check := by simp [compile] at hcomp; exact hcomp.1
+      subst this
+      exact check_only_first _ _ hcomp.symm hm
     | batchOp b =>
       simp only [compile, batchCode, List.cons.injEq] at hcomp
       rw [hcomp.2] at hm
       simp at hm
+    | callback => simp [compile] at hcomp
     | _ =>
-      have : i = .check := by simp [compile, readCode, writeCode, iterCode, flagCode] at hcomp; exact hcomp.1
+      have : i = .check := by simp [compile, readCode, writeCode, fwriteCode, iterCode, flagCode] at hcomp; exact hcomp.1
       subst this
       exact check_only_first _ _ hcomp.symm hm
   · have hop := swap_only_close op (by rw [← hcomp]; exact List.mem_cons_of_mem _ hm)
@@ -358,6 +384,15 @@ theorem tinv_step {s s' : Shared} {t t' : Thread} (hs : TStep s t s' t') (h : TI
     rw [hcode] at hw
     simp only [wfc] at hw
     refine ⟨hw, ?_, ?_, ?_⟩
+    · intro hw'
+      have hnw := h.nowait (fun l r hcode' => by rw [hcode] at hcode'; cases hcode')
+      rw [show t.waiting = true from hw'] at hnw; cases hnw
+    · intro hc'; rw [show t.cur = none from hc'] at hc; cases hc
+    · intro hm; exact absurd hm (fresh_tail h _ _ hcode)
+  | load op rest hc hcode =>
+    rw [hcode] at hw
+    simp only [wfc, Bool.and_eq_true] at hw
+    refine ⟨hw.2, ?_, ?_, ?_⟩
     · intro hw'
       have hnw := h.nowait (fun l r hcode' => by rw [hcode] at hcode'; cases hcode')
       rw [show t.waiting = true from hw'] at hnw; cases hnw
